@@ -298,11 +298,19 @@ def check(db, rep):
     # ---------------------------------------------------------------- r2
     r2 = rep.rule('r2', 'ROUND-TRIP: parse_model(lex_model(print_model(T))) = T for every tree of the operator/constructor family, in MATH and ASCII', 600)
     fam = [(k, s, sentence(s)) for k, s in family()]
+    from engine.models.treegrammar import TreeGrammar, PAYLOAD
+    tg = TreeGrammar(db)
     if rep.tier == 'thorough':
         # every witness sentence of the tree grammar (one per production x operand root kind): all constructs in all operand positions
-        from engine.models.treegrammar import TreeGrammar
-        for text, toks in TreeGrammar(db).sentences():
+        for text, toks in tg.sentences():
             fam.append(('grammar', text, toks))
+    else:
+        # quick tier: every operand kind under the constructs that print their own brackets (named operations, Boolean, filter, call)
+        seen_t = set()
+        for (parent, idx, child), text in sorted(tg.witness.items()):
+            if parent in ('BIGPR', 'SMALLPR', 'CARD', 'BOOL', 'DEBOOL', 'REDUCE', 'BOOLEAN', 'FILTER', 'NT_FUNC_CALL') and idx >= 0 and text not in seen_t:
+                seen_t.add(text)
+                fam.append(('grammar', text, [(tg.term[t], PAYLOAD.get(tg.term[t]), 1) for t in text.split()]))
     trees = {}
     kinds = {}
     for kind, s, toks_ in fam:
@@ -397,3 +405,49 @@ def check(db, rep):
         r5.violation('ParseData-kinds', 'ccl/rslang/include/ccl/rslang/LexerBase.hpp', 'payload kinds %s differ from what the generator prints from (text/int/index tuple)' % bad)
     else:
         r5.ok('ParseData-kinds', 'identifiers text, integers int, Pr/pr/Fi index tuples')
+
+    # ---------------------------------------------------------------- r6
+    r6 = rep.rule('r6', 'CONVERT: ConvertTo(text, target) parses the text in the *other* syntax and prints the tree in the target syntax; text that does not parse is returned unchanged', 1)
+    cv = db.fn('ccl::rslang::ConvertTo', required=False)
+    if cv is None:
+        r6.broken('anchor vanished: ccl::rslang::ConvertTo')
+        return
+    SYN = {e['name']: e['val'] for e in db.enum('ccl::rslang::Syntax')['enumerators']}
+    inv = {v: k for k, v in SYN.items()}
+    bad = None
+    try:
+        for target in ('MATH', 'ASCII'):
+            for parses in (True, False):
+                seen = {}
+
+                def on_call(it, fn, n, env, parses=parses, seen=seen):
+                    cs = n.get('cs') or ''
+                    if cs.endswith('Parser::Parse'):
+                        args = [it.eval(fn, fn.stmts[a], env) for a in n.get('args', [])]
+                        seen['hint'] = inv.get(args[1], args[1]) if len(args) > 1 else 'UNDEF'
+                        return parses
+                    if cs.endswith('Generator::FromTree'):
+                        args = [it.eval(fn, fn.stmts[a], env) for a in n.get('args', [])]
+                        seen['out'] = inv.get(args[1], args[1]) if len(args) > 1 else '?'
+                        return b'<printed>'
+                    if cs.endswith('Parser::AST'):
+                        return Obj(__kind__='ast')
+                    if n['k'] in ('CXXConstructExpr', 'CXXTemporaryObjectExpr') and (n.get('cls') or '').endswith('rslang::Parser'):
+                        return Obj(__kind__='parser')
+                    return NOT_HANDLED
+                res = Interp(db, on_call=on_call).call(cv, [b'text', SYN[target]])
+                other = 'ASCII' if target == 'MATH' else 'MATH'
+                if seen.get('hint') != other:
+                    bad = bad or 'converting to %s parses the input with syntax hint %s; the input is in the other syntax (%s) - auto-detection reads `a*b` or `X1\\\\X2` as ASCII' % (target, seen.get('hint'), other)
+                elif parses and (seen.get('out') != target or res != b'<printed>'):
+                    bad = bad or 'converting to %s prints the tree in %s' % (target, seen.get('out'))
+                elif not parses and res != b'text':
+                    bad = bad or 'text that does not parse is not returned unchanged'
+    except OutOfFragment as e:
+        r6.broken('ConvertTo outside the evaluable fragment: %s' % e)
+        return
+    if bad:
+        r6.violation('ConvertTo', '%s:%d' % (cv.file, cv.line), bad)
+    else:
+        r6.ok('ConvertTo:source-syntax', 'the input is parsed in the syntax opposite to the target', '%s:%d' % (cv.file, cv.line))
+        r6.ok('ConvertTo:target-syntax', 'the tree is printed in the target syntax; unparsable text is returned as is', '%s:%d' % (cv.file, cv.line))
